@@ -35,7 +35,12 @@ RULE = ("for every generated program (function, or class with invariants and met
         "(2) probe traces/outcomes equal those of a fresh thread; (3) the suspension set is empty afterwards. Plus "
         "Hypothesis-drawn sequences of two faulted calls before the probes. non-trivial = the fault is a "
         "BaseException kind, or sits in a capture/factory/__repr__/__bool__/invariant/gate, or two faults precede the "
-        "probe; distinct = hash(program, op, truth, plan).")
+        "probe; distinct = hash(program, op, truth, plan). Plus an interleaved family: 2..5 checked async calls of "
+        "DIFFERENT functions / on different objects of an invariant-carrying class overlap in ONE context (coroutines "
+        "stepped by hand under a generated schedule; each may be closed or have CancelledError / an exception / "
+        "KeyboardInterrupt thrown in at a suspension point), then every callable is probed with each of its contracts "
+        "violated and with all holding; oracle = the stand-alone trace and verdict. non-trivial there = the calls did "
+        "not end in reverse order of their start.")
 ASSUMPTIONS = ["faults are injected where user code runs, not between arbitrary bytecodes of the wrappers",
                "the content of the suspension set is read through icontract._checkers._IN_PROGRESS when it exists "
                "(secondary observation)"]
@@ -454,6 +459,203 @@ def nested_family(ctx):
                                                                                             "async": is_async})
 
 
+class _Susp:
+    """Awaitable that hands control to the hand-written driver of ``interleaved``."""
+
+    def __init__(self, tag):
+        self.tag = tag
+
+    def __await__(self):
+        yield ("susp", self.tag)
+
+
+def _interleaved_rig(n_funcs, n_objs, log, truth):
+    """n_funcs contracted async functions and one class with an invariant and an async method, n_objs instances.
+    Every condition and body suspends once; ``truth`` maps (name, role) -> bool, read at evaluation time."""
+    import icontract
+
+    callables = {}
+
+    def make(name):
+        async def pre(x):
+            await _Susp((name, "pre"))
+            log.append((name, "pre"))
+            return truth.get((name, "pre"), True)
+
+        async def post(result):
+            await _Susp((name, "post"))
+            log.append((name, "post"))
+            return truth.get((name, "post"), True)
+
+        @icontract.require(pre)
+        @icontract.ensure(post)
+        async def f(x):
+            log.append((name, "body"))
+            await _Susp((name, "body"))
+            return x
+
+        return f
+
+    for i in range(n_funcs):
+        callables["f%d" % i] = make("f%d" % i)
+
+    def inv(self):
+        log.append((self.name, "inv"))
+        return truth.get((self.name, "inv"), True)
+
+    def mpre(self):  # a def: the source of a violated lambda would be re-evaluated for the message
+        log.append((self.name, "pre"))
+        return truth.get((self.name, "pre"), True)
+
+    @icontract.invariant(inv)
+    class K:
+        def __init__(self, name):
+            self.name = name
+
+        @icontract.require(mpre)
+        async def m(self, x):
+            log.append((self.name, "body"))
+            await _Susp((self.name, "body"))
+            return x
+
+    for i in range(n_objs):
+        callables["o%d" % i] = K("o%d" % i).m
+    del log[:]
+    return callables
+
+
+def _alone_trace(name):
+    if name.startswith("f"):
+        return [(name, "pre"), (name, "body"), (name, "post")]
+    return [(name, "inv"), (name, "pre"), (name, "body"), (name, "inv")]
+
+
+def interleaved_case(ctx, case):
+    """Checked async calls of DIFFERENT functions / on different objects that overlap in ONE context (coroutines driven by
+    hand in this thread, as an event loop does for tasks given the same context) and end in any order, normally, by
+    close() or by an exception thrown at a suspension point. Afterwards every callable must be checked again as in a
+    fresh process: a violated precondition / invariant is reported, and all contracts are evaluated."""
+    import icontract
+
+    log, truth = [], {}
+    names = case["names"]
+    callables = _interleaved_rig(sum(1 for n in names if n.startswith("f")), sum(1 for n in names if n.startswith("o")),
+                                 log, truth)
+    live = {}
+    ended = {}
+    for name in names:
+        live[name] = callables[name](name)
+    started, first_step = set(), {}
+    for step in case["schedule"]:
+        if not live:
+            break
+        name = sorted(live)[step[0] % len(live)]
+        coro = live[name]
+        act = step[1] if name in started else "send"
+        if name not in started:
+            first_step[name] = len(first_step)
+        started.add(name)
+        try:
+            if act == "send":
+                y = coro.send(None)
+            elif act == "close":
+                coro.close()
+                raise StopIteration("closed")
+            else:
+                y = coro.throw(make_fault(act))
+            if not (isinstance(y, tuple) and y[0] == "susp"):
+                raise RuntimeError("vf: unexpected suspension %r" % (y,))
+        except StopIteration as e:
+            ended[name] = ("closed",) if e.args == ("closed",) else ("ret", e.value)
+            del live[name]
+        except BaseException as e:  # noqa
+            ended[name] = ("exc", type(e).__name__)
+            del live[name]
+    for name in sorted(live):  # whatever is still suspended is finished in name order
+        try:
+            while True:
+                live[name].send(None)
+        except StopIteration as e:
+            ended[name] = ("ret", e.value)
+        except BaseException as e:  # noqa
+            ended[name] = ("exc", type(e).__name__)
+    key = ["interleaved", names, case["schedule"]]
+    start_order = [n for n in dict.fromkeys(sorted(started, key=lambda n: first_step[n]))]
+    end_order = list(ended)
+    overlapped_nonlifo = len(start_order) >= 2 and [n for n in end_order if n in started] != start_order[::-1]
+    ctx.case(key, overlapped_nonlifo, sample={"interleaved": names, "schedule": case["schedule"], "ended": {k: list(v) for k, v in ended.items()}})
+    ctx.count("interleaved:calls=%d" % len(names))
+    # calls that ended normally were evaluated completely, in their own order
+    for name in names:
+        if ended[name][0] == "ret":
+            mine = [e for e in log if e[0] == name]
+            if mine != _alone_trace(name) or ended[name][1] != name:
+                ctx.fail("interleaved|call-differs-from-alone|%s" % name[0], dict(case, interleaved=True),
+                         "overlapping calls %r, schedule %r: the call of %s evaluated %r and ended %r; alone it evaluates %r and "
+                         "returns its argument" % (names, case["schedule"], name, mine, ended[name], _alone_trace(name)))
+                return
+    # probes, in the same thread and context
+    def drive_plain(coro):
+        try:
+            while True:
+                coro.send(None)
+        except StopIteration as e:
+            return e.value
+
+    for name in names:
+        for role in (("pre",) if name.startswith("f") else ("pre", "inv")) + (None,):
+            del log[:]
+            truth.clear()
+            if role:
+                truth[(name, role)] = False
+            try:
+                out = ("ret", drive_plain(callables[name](name)))
+            except icontract.ViolationError:
+                out = ("violation",)
+            except BaseException as e:  # noqa
+                out = ("exc", type(e).__name__)
+            if role is None:
+                want_out, want_log = ("ret", name), _alone_trace(name)
+            else:
+                want_out = ("violation",)
+                want_log = _alone_trace(name)[:_alone_trace(name).index((name, role)) + 1]
+            ctx.evaluations += 1
+            if out != want_out or log != want_log:
+                ctx.fail("interleaved|probe-not-checked-as-fresh|%s|%s" % (name[0], role or "all-hold"), dict(case, interleaved=True),
+                         "after the overlapping calls %r (schedule %r, ended %r) the probe %s(...) with %s gave %r evaluating %r; "
+                         "a fresh process gives %r evaluating %r" % (
+                             names, case["schedule"], ended, name, "violated " + role if role else "all contracts holding", out,
+                             log, want_out, want_log))
+                return
+    truth.clear()
+
+
+@st.composite
+def st_interleaved(draw):
+    nf = draw(st.integers(0, 3))
+    no = draw(st.integers(0 if nf >= 2 else 2 - nf, 2))
+    names = ["f%d" % i for i in range(nf)] + ["o%d" % i for i in range(no)]
+    acts = ["send"] * 8 + ["close", "CancelledError", "ProgError", "KeyboardInterrupt"]
+    schedule = draw(st.lists(st.tuples(st.integers(0, 5), st.sampled_from(acts)), min_size=2, max_size=5 * len(names)))
+    return {"names": names, "schedule": [list(x) for x in schedule]}
+
+
+def interleaved(ctx, seed, n):
+    # directed: f starts, g starts, f ends, g ends (non-LIFO), for every pair of kinds
+    for names in (["f0", "f1"], ["f0", "o0"], ["o0", "o1"], ["f0", "f1", "o0"]):
+        k = len(names)
+        for order in ("fifo", "lifo"):
+            sched = [[i, "send"] for i in range(k)]  # every call started and suspended
+            sched += [[0, "send"]] * 12 if order == "fifo" else [[k - 1 - min(i // 4, k - 1), "send"] for i in range(12)]
+            interleaved_case(ctx, {"names": names, "schedule": sched, "label": "non-lifo" if order == "fifo" else "lifo"})
+
+    @given(st_interleaved())
+    def test(case):
+        interleaved_case(ctx, case)
+
+    core.run_hypothesis(test, seed, n)
+
+
 def run(ctx, tier, seed, shard, nshards):
     import sys
 
@@ -467,12 +669,18 @@ def run(ctx, tier, seed, shard, nshards):
         check_program(ctx, case, tier)
 
     core.run_hypothesis(test, seed, n)
+    interleaved(ctx, seed, 150 if tier == "quick" else 1500)
     ctx.extra["exhaustive_scope"] = "all injection points x fault kinds of every generated program (single fault)"
 
 
 def replay(ctx, case):
     import warnings
 
+    if case.get("interleaved"):
+        before = ctx.evaluations
+        interleaved_case(ctx, case)
+        ctx.evaluations = before + 1
+        return
     if case.get("nested"):
         from vf.props import c10
         import sys
